@@ -3,6 +3,6 @@ PROPS["C17"] = {
     "outside": "real HTTP/TLS/timeouts, the msgp/snappy body (CreateMsg and snappy are stubs: the batch identity is tracked instead), concurrency > 2, more than 2 consecutive failures",
     "assumptions": ["http client, CreateMsg, snappy.Writer, json.Unmarshal, backoff are engine stubs (engine/intrinsics_http.go)", "failures are transient: after 2 failed attempts requests succeed"],
     "groups": [
-        {"pkg": "route", "hdir": "route", "specs": [spec("C17/retry", "VerifC17Retry"), spec("C17/buffer", "VerifC17Buffer"), spec("C17/shutdown", "VerifC17Shutdown")]},
+        {"pkg": "route", "hdir": "route", "specs": [spec("C17/retry", "VerifC17Retry"), spec("C17/retry/failures<=3", "VerifC17Retry", {"maxfail": "3"}, tier="thorough"), spec("C17/buffer", "VerifC17Buffer"), spec("C17/shutdown", "VerifC17Shutdown")]},
     ],
 }
